@@ -180,6 +180,25 @@ class Collapser:
                           'template-mutated', {'before': a[max(0, k - 2):k + 2], 'after': b[max(0, k - 2):k + 2]})
                 return nontrivial, placements
             self.run.count('template_snapshots_compared')
+            # the collapsed copies are independent of the template: editing every mutable thing reachable from them
+            # must leave the template (and therefore the next collapse of the same file) untouched
+            if rng.random() < 0.6:
+                from checks.c09 import mutate_everything
+                n_mut = 0
+                for o in new_ents + new_brushes:
+                    try:
+                        n_mut += mutate_everything(o, rng)
+                    except Exception:
+                        pass  # a mutation the object refuses is not this property's subject
+                self.run.count('collapsed_copies_mutated', n_mut)
+                text_now = tmpl.export(inc_version=False)
+                if text_now != tmpl_text0:
+                    a, b = tmpl_text0.splitlines(), text_now.splitlines()
+                    k = next((i for i, (x, y) in enumerate(zip(a, b)) if x != y), min(len(a), len(b)))
+                    self.fail(f'editing the collapsed copies of collapse #{c + 1} changed the instance template (line {k + 1}: '
+                              f'{a[k].strip() if k < len(a) else ""!r} -> {b[k].strip() if k < len(b) else ""!r})',
+                              'template-aliased-by-collapsed-copy', {'before': a[max(0, k - 2):k + 2], 'after': b[max(0, k - 2):k + 2]})
+                    return nontrivial, placements
         return nontrivial, placements
 
     # ---- snapshots of template objects (plain tuples, so later mutation cannot affect them)
@@ -415,7 +434,7 @@ def main(run, shard=(0, 1)) -> None:
             bounded_progress(run, sub_rng(run.seed, 'bounded', i), i)
     probe.report(run)
     probe.check_reached(run)
-    run.require('collapses', 'plane_points_checked', 'texture_projections_checked', 'origins_checked', 'orientations_checked',
+    run.require('collapses', 'collapsed_copies_mutated', 'plane_points_checked', 'texture_projections_checked', 'origins_checked', 'orientations_checked',
                 'names_checked', 'substitutions_checked', 'template_snapshots_compared', 'collapse_all_runs', 'displacements_checked')
 
 
